@@ -27,7 +27,9 @@ RULE = ('template trees over 13 node kinds (constant, table hold/jump/linear, po
         'ranges, repetition counts 0..3 or following the loop index; malformed stream: missing parameter, non-integer '
         'count / range, zero step, non-monotone table, unequal durations; constant-folding stream: equal-voltage constant '
         'siblings around reversed / count-1 repeated / reversed-repeated sequences of ramps; the operator table of '
-        'ArithmeticPT (operand order x operator x scalar form plain / all channels / strict subset); tables with one, two or '
+        'ArithmeticPT (operand order x operator x scalar form plain / all channels / strict subset); exhaustive small scope '
+        'of four-entry tables over binary time-increment / value alphabets, plain and reversed (thorough: all 3744, '
+        'quick: 60 of them); tables with one, two or '
         '(3 %) three entries at the final time.  Grid: every multiple of 1/4 up to the '
         'duration (sub-sampled to <= 40 points, all junctions of the generated trees lie on it) + off-grid points + '
         't = duration; the same grid read through plotting.render(sample_rate=4) (+ all rendered points compared with '
@@ -76,6 +78,9 @@ def gen_cases(rng, tier, ctx):
     # single tables over a small alphabet of times / values (de-duplication and constant detection of from_table)
     for _ in range(90 if tier == 'quick' else 3000):
         cases.append(G.gen_table_case(rng))
+    # exhaustive small scope of four-entry tables over binary alphabets (thorough: all 3744; quick: a random 60)
+    allt = G.enum_table_cases()
+    cases.extend(allt if tier != 'quick' else rng.sample(allt, 60))
     return cases
 
 
